@@ -785,6 +785,9 @@ fn check_observations(cfg: &Cfg, snap: &Snap, obs: &[(Op, Ret)], after: Option<&
     };
     for (op, r) in obs {
         bump(c, "observer_calls");
+        if ret_has_dead(r) {
+            out.push(Finding::new("C03", "no_invalid_memory_handed_out", format!("{:?}/{}", cfg.kind, op_name(op)), format!("{:?} handed out a key/value that is not a live, initialised object ({:?}) in state {}", op, r, show(cfg, snap))));
+        }
         if let Ret::Panic(m) = r {
             out.push(Finding::new("C05", "no_panic", format!("{:?}:{}", cfg.kind, crate::panics::location_of(m)), format!("observer {:?} panicked: {} in state {}", op, m, show(cfg, snap))));
             continue;
@@ -826,8 +829,8 @@ fn check_observations(cfg: &Cfg, snap: &Snap, obs: &[(Op, Ret)], after: Option<&
                         e.reverse();
                     }
                     let e: L = match fi {
-                        4 | 5 => e.iter().map(|x| (x.0, (0, 0))).collect(),
-                        6..=9 => e.iter().map(|x| (255, x.1)).collect(),
+                        4 | 5 => e.iter().map(|x| (x.0, (254, 254))).collect(),
+                        6..=9 => e.iter().map(|x| (254, x.1)).collect(),
                         _ => e,
                     };
                     if *fr != Ret::Ents(e.clone()) {
@@ -951,6 +954,9 @@ pub fn check_trans(cfg: &Cfg, pre: &Snap, probe: &Probe, op: Op, t: &TransRes, e
         None => return out,
     };
     bump(c, &format!("ret.{}", ret_class(ret)));
+    if ret_has_dead(ret) {
+        out.push(Finding::new("C03", "no_invalid_memory_handed_out", format!("{}/{}", kind, op_name(&op)), format!("the call handed out a key/value that is not a live, initialised object: {}", ctx(Some(post)))));
+    }
     if !t.post_obs.is_empty() {
         let none = crate::driver::AuditRes::default();
         check_observations(cfg, post, &t.post_obs, t.post_after_obs.as_ref(), &none, &format!("(in the object reached by {:?} on {})", op, show(cfg, pre)), c, &mut out);
@@ -985,8 +991,26 @@ pub fn check_trans(cfg: &Cfg, pre: &Snap, probe: &Probe, op: Op, t: &TransRes, e
                     l.first().map(|e| e.0)
                 }
             }
+            Op::IterW(list, fam, n) => iterw_target(pre, list, fam, n).map(|(li, pi)| pre.lists[li][pi].0),
             _ => None,
         };
+        if let Op::IterW(list, fam, n) = op {
+            // the write lands on exactly the entry the accessor names, and is stored
+            match iterw_target(pre, list, fam, n) {
+                Some((li, pi)) => {
+                    let e = pre.lists[li][pi];
+                    let want = (e.0, (e.1 .0, e.1 .1 ^ 1));
+                    if post.lists.get(li).and_then(|l| l.get(pi)) != Some(&want) || *ret != Ret::Bool(true) {
+                        out.push(f("write_through_iterator_is_stored", format!("{}/{:?}", list_names(cfg.kind)[li], fam), format!("the first item of {:?} over {} should now read {:?}: {}", fam, list_names(cfg.kind)[li], want, ctx(Some(post)))));
+                    }
+                }
+                None => {
+                    if *ret != Ret::Bool(false) || post.canon() != pre.canon() {
+                        out.push(f("write_through_iterator_is_stored", format!("{}/{:?}/empty", list_names(cfg.kind)[list as usize], fam), format!("{:?} over an empty list yielded an item or changed something: {}", fam, ctx(Some(post)))));
+                    }
+                }
+            }
+        }
         for (k, v) in &post_all {
             match val(&pre_all, *k) {
                 Some(pv) => {
@@ -1312,4 +1336,24 @@ pub fn owns(prop: &str, f: &Finding) -> bool {
 pub fn op_name(op: &Op) -> String {
     let d = format!("{:?}", op);
     d.split('(').next().unwrap_or("").to_string()
+}
+
+/// does a returned value contain a key/value read from memory that does not hold a live object?
+pub fn ret_has_dead(r: &Ret) -> bool {
+    let dv = |v: &VV| v.0 == 255 || v.1 == 255;
+    match r {
+        Ret::V(Some(v)) => dv(v),
+        Ret::KV(Some((k, v))) => *k == 255 || dv(v),
+        Ret::OrPut(Some(v), _) if dv(v) => true,
+        Ret::Put(p) | Ret::OrPut(_, Some(p)) | Ret::BoolOrPut(_, Some(p)) => match p {
+            PR::Put => false,
+            PR::Update(v) => dv(v),
+            PR::Evicted(k, v) => *k == 255 || dv(v),
+            PR::EvictedAndUpdate((k, v), u) => *k == 255 || dv(v) || dv(u),
+        },
+        Ret::Many(v) => v.iter().any(ret_has_dead),
+        // iterator drains: key-only items are (k,(254,254)), value-only items (254, v)
+        Ret::Ents(v) => v.iter().any(|(k, val)| *k == 255 || *val == (255, 255)),
+        _ => false,
+    }
 }
